@@ -83,6 +83,16 @@ def r02_1(ctx):
                 if kind == 'get' and not ok and is_call(rv, '::from_residual') and 'option::Option' in rv[1]:
                     ok = True       # `find_input(b)?` in a function returning Option: the residual of None is None
                 ctx.check(R, ok, kind + ':miss', 'a probe byte without transition must end the lookup with %s' % ('None' if kind == 'get' else 'false'), fn=f)
+            elif p.end == 'return' and fi and fi[-1][3] == 1:
+                # the function answers in the middle of the walk, right after following a transition: the remaining probe bytes
+                # are never looked at
+                rv = p.ret()
+                positive = rv == ('const', 1) or (rv[0] == 'agg' and rv[1].endswith('::Some'))
+                if positive:
+                    ctx.violation(R, kind + ':early-hit', 'the lookup reports a hit before the probe is exhausted (after following a transition, without consuming the remaining bytes): '
+                                  'every extension of a key that ends on such a node is reported present', fn=f)
+                else:
+                    ctx.undecided(R, kind + ':early-miss', 'the lookup gives up in the middle of the walk after a transition was found', fn=f)
             elif p.end == 'return' and not fi:
                 rv = p.ret()
                 fin = [d for d in p.decisions if is_call(d[2], IS_FINAL)]
@@ -129,10 +139,10 @@ def r02_4(ctx):
 
 
 def run(ctx):
-    r02_1(ctx)
+    ctx.step(r02_1, ctx)
     R1 = ctx.rule('R01.1', 'reader offsets of every node accessor equal the positions the format table assigns (shared with C01)', floor=30)
     R2 = ctx.rule('R02.2', 'scan / index agreement between reader and writer', floor=5)
-    readerrules.run(ctx, R1, R2)
+    ctx.step(readerrules.run, ctx, R1, R2)
     # writer side of R02.2: inputs reversed, index table default / fill
     R = {'events': R2, 'widths': R2, 'index': R2, 'sizes': R2, 'state': R2}
     lib = ctx.lib
@@ -149,12 +159,12 @@ def run(ctx):
         ctx.check(R2, len(inp) == 1 and inp[0].loop and inp[0].loop[0] == 'rev', 'writer:inputs-reversed', 'the writer must store the input bytes in reverse transition order (the reader\'s scan and input(i) rely on it)', fn=f)
         idx = [e for e in evs if e.kind() == 'write_all' and not e.loop and any(x[0] == 'citem' and x[1] == layout.THRESH for g, v in e.guards for x in walk(g))]
         if idx:
-            layout.index_table_rules(ctx, R2, f, idx[0])
+            ctx.step(layout.index_table_rules, ctx, R2, f, idx[0])
         else:
             ctx.undecided(R2, 'writer:index', 'index-table emission not found', fn=f)
     R3 = ctx.rule('R02.3', 'common-input tables are mutually inverse permutations; encoder index = COMMON[b]+1 if it fits else 0; decoder byte = INV[idx-1]', floor=2)
     # reuse the constant / helper rules under this rule id
     n0 = len(ctx.violations)
-    formatrules.constants(ctx)
-    formatrules.common_input_helpers(ctx, R3)
-    r02_4(ctx)
+    ctx.step(formatrules.constants, ctx)
+    ctx.step(formatrules.common_input_helpers, ctx, R3)
+    ctx.step(r02_4, ctx)
